@@ -44,10 +44,30 @@ def _resolve(node, path):
     return node
 
 
+VIRT = {ast.Call: ('args', 'keywords', '_args'), ast.ClassDef: ('bases', 'keywords', '_bases')}
+
+
+def _kpos(x):
+    v = x if hasattr(x, 'lineno') else getattr(x, 'value', x)
+    return (v.lineno, v.col_offset)
+
+
 class Matcher:
     """ask the real matcher about pure nodes"""
 
-    def __init__(self, root_fst, pure, pat):
+    def arglikes(self, node):
+        """arguments of a Call / bases of a ClassDef in SOURCE order (CPython positions of the original program)"""
+        a, k, _ = VIRT[node.__class__]
+        xs = list(getattr(node, a)) + list(getattr(node, k))
+        if not getattr(node, k) or not any(isinstance(x, ast.Starred) for x in getattr(node, a)):
+            return xs                                           # positional before keywords: no interleaving possible
+        if id(node) not in self.map:
+            raise Skip('source order of the arguments of a rebuilt call is unknown')
+        return sorted(xs, key=_kpos)
+
+    def __init__(self, root_fst, pure, pat, range_fill=False):
+        self.range_fill = range_fill
+        self.noncontig = False
         self.pat = pat
         self.map = {}
         for a, b in zip(ast.walk(pure), ast.walk(root_fst.a)):
@@ -84,19 +104,34 @@ class Matcher:
                 caps[tag] = ('node', _resolve(node, f.child_path(v))) if v is not f else ('whole', node)
             elif isinstance(v, FSTView):
                 base = _resolve(node, f.child_path(v.base)) if v.base is not f else node
-                if not hasattr(base, v.field):
+                if base.__class__ in VIRT and v.field == VIRT[base.__class__][2]:
+                    caps[tag] = ('slice', self.arglikes(base)[v.start:v.stop])
+                elif not hasattr(base, v.field):
                     raise Skip('virtual view')
-                caps[tag] = ('slice', list(getattr(base, v.field)[v.start:v.stop]))
+                else:
+                    caps[tag] = ('slice', list(getattr(base, v.field)[v.start:v.stop]))
             elif isinstance(v, list):
                 out = []
+                parent = None
                 for q in v:
                     if not isinstance(q, FSTMatch):
                         raise Skip('quantifier item')
                     for x in (q.matched if isinstance(q.matched, list) else [q.matched]):
                         if not isinstance(x, FST):
                             raise Skip('quantifier element')
-                        out.append(_resolve(node, f.child_path(x)))
+                        pth = f.child_path(x)
+                        out.append(_resolve(node, pth))
+                        if parent is None:
+                            parent = (_resolve(node, pth[:-1]), pth[-1].name)
                 if out:
+                    # the captured elements themselves, in capture order.  Are they consecutive in their list?
+                    pn, fname = parent
+                    lst = self.arglikes(pn) if pn.__class__ in VIRT and fname in VIRT[pn.__class__][:2] else getattr(pn, fname)
+                    idxs = [next(i for i, y in enumerate(lst) if y is x) for x in out]
+                    if idxs != list(range(idxs[0], idxs[0] + len(idxs))):
+                        self.noncontig = True
+                        if self.range_fill:                     # what a first..last range of the list would hold
+                            out = list(lst[min(idxs):max(idxs) + 1])
                     caps[tag] = ('slice', out)
             elif v is None:
                 continue
@@ -265,7 +300,7 @@ class Ref:
                         else:
                             c = caps.get(tag)
                         if c is not None:
-                            if c[0] == 'slice' or isinstance(c[1], ast.stmt) or not isinstance(c[1], ast.expr):
+                            if c[0] == 'slice' or isinstance(c[1], ast.stmt) or not isinstance(c[1], (ast.expr, ast.keyword)):
                                 raise Skip('string slot with a statement or slice capture')
                             c = c[1]
                             if isinstance(t.value, bytes):
@@ -282,7 +317,19 @@ class Ref:
                     n._c18_spec = (parts, isinstance(t.value, bytes))
                     return [n]
             n = copy.copy(t)
+            vf = VIRT.get(t.__class__)
+            if vf:
+                # arguments / bases: ONE list in the template's source order; captured keywords go to `keywords`, the
+                # rest to `args` (their relative order is all the AST records)
+                merged = sorted(list(getattr(t, vf[0])) + list(getattr(t, vf[1])), key=_kpos)
+                out = []
+                for x in merged:
+                    out.extend(inst(x, t, vf[0], True))
+                setattr(n, vf[0], [x for x in out if not isinstance(x, ast.keyword)])
+                setattr(n, vf[1], [x for x in out if isinstance(x, ast.keyword)])
             for name, v in ast.iter_fields(t):
+                if vf and name in vf[:2]:
+                    continue
                 if isinstance(v, ast.AST):
                     r = inst(v, t, name, False)
                     if len(r) != 1:
@@ -320,13 +367,15 @@ class Ref:
         return r, False
 
 
-def reference(root_fst, src, pat, tmpl_src, cat, nested, count, loop, on, quirk=False):
+def reference(root_fst, src, pat, tmpl_src, cat, nested, count, loop, on, quirk=False, range_fill=False, info=None):
     """-> (pure result Module, unique, total, set of ids of untouched top-level statements' sources)"""
     pure = ast.parse(src)
     tkind, tmpl = parse_template(tmpl_src, cat)
     if cat == 'expr' and tkind != 'expr':
         raise Skip('template kind')
-    mt = Matcher(root_fst, pure, pat)
+    mt = Matcher(root_fst, pure, pat, range_fill)
+    if info is not None:
+        info['matcher'] = mt
     ref = Ref(mt, tkind, tmpl, nested, count, loop, on, quirk)
     out = ref.visit(pure, matchable=False)
     if len(out) != 1:
@@ -352,12 +401,26 @@ def _dump_noctx(n):
     return ast.dump(n)
 
 
+_BUDGET = [0]
+
+
 def _slot_text_ok(g, node):
-    try:
-        got = ast.parse('(' + g + '\n)', mode='eval').body
-    except (SyntaxError, ValueError, RecursionError):
-        return False
-    return cmp_ast(node, got, 'slot', ctx=False) is None
+    _BUDGET[0] -= 1
+    if _BUDGET[0] < 0:
+        raise Skip('string slot: too many ways to split the constant')
+    for form in ('(%s\n)', 'f(%s\n)'):
+        try:
+            got = ast.parse(form % g, mode='eval').body
+        except (SyntaxError, ValueError, RecursionError):
+            continue
+        if form[0] == 'f':                               # a starred or keyword argument is source only inside a call
+            al = got.args + got.keywords
+            if len(al) != 1:
+                continue
+            got = al[0]
+        if cmp_ast(node, got, 'slot', ctx=False) is None:
+            return True
+    return False
 
 
 def _match_parts(parts, i, text, pos):
@@ -392,6 +455,7 @@ def check_spec(spec, value, path):
     if is_bytes != isinstance(value, bytes) or not isinstance(value, (str, bytes)):
         return f'{path}: constant type changed'
     text = value.decode('latin-1') if is_bytes else value
+    _BUDGET[0] = 400
     merged = []
     for p in parts:                                      # normalise: literals and slots alternate
         if isinstance(p, str) and merged and isinstance(merged[-1], str):
